@@ -20,6 +20,8 @@ EXPLANATION = (
     " Added in rounds 6 and 7: (O16.5b) a row the sheet cannot hold (text longer than 32767 characters) leaves"
     " nothing behind and the next row starts at column 0 of the next free line; an empty item keeps its column; a"
     " stored 0 is the text 0."
+    " Added in rounds 8 and 9: (O16.5) a trailing row without items leaves something in its line; (O16.7) the"
+    " Sheet row's number is the number the data format stores."
 )
 ASSUMPTIONS = ["xlrd types cells and converts dates as documented; str(float) is the shortest text denoting the value"]
 
